@@ -24,7 +24,11 @@ TRUSTED = [
     'full-environment diff and the foreign-write log, not proved',
 ]
 ASSUMPTIONS = [
-    'faults are injected at Python-level calls made directly by the entry point (and by the helpers inlined in its skeleton); C-level builtins are not fault points',
+    'faults are injected at Python-level calls made directly by the entry point (and by the helpers inlined in its skeleton), including calls made inside handlers and finally blocks '
+    '(as single faults, and as second faults after a first one); C-level builtins and the os.environ operations themselves are not fault points',
+    'initial values of the touched variables are taken from a fixed list of lengths / contents (0 .. 4096 characters, non-ASCII, non-UTF-8 bytes, =, blanks, newline), not all strings; '
+    'PHOTO_RESOLVE must be a usable directory or absent',
+    'fresh-interpreter runs import the module of the entry point only (pydl.photoop.window / pydl.pydlspec2d.spec1d); other import orders of a user script are not enumerated',
     'template_input is driven through its dump-file path (readspec/skymask/preprocess_spectra are skipped when the dump file exists) and, without a dump file, '
     'up to the failure of readspec on the missing spPlate files; fault points before and after that branch are all exercised',
     'window_score runs its real scoring stage on synthetic window_flist/fpFieldStat/psField files (sdss_name and sdss_path are executed for every field); '
@@ -34,6 +38,7 @@ ASSUMPTIONS = [
 DEFAULT_VARS = {'window_score': ['PHOTO_CALIB', 'PHOTO_RESOLVE'], 'template_input': ['RUN2D', 'RUN1D'],
                 'window_read': ['PHOTO_RESOLVE', 'PHOTO_CALIB']}
 TARGETS = ('window_score', 'template_input', 'window_read')
+ONLY = [x for x in os.environ.get('C20_ONLY', '').split(',') if x]
 _meta = {}
 
 
@@ -101,16 +106,63 @@ def extra_states(extras, rng, n_random, full):
     return seen
 
 
-def run_batches(target, workdir, names, inlined, runs):
-    if not runs:
+VALUE_LABELS = ['', '@len1', '@len16', '@len17', '@len64', '@len4096', '@nonascii', '@eqsp', '@trail', '@lead', '@newline', '@bytes',
+                '@zero', '@none']
+DIR_VALUED = ('PHOTO_RESOLVE',)
+PAR_KINDS = ['missing', 'isdir', 'empty', 'garbage', 'truncated', 'early', 'badvalue', 'norun1d', 'badhmf', 'badhmfvalue', 'badmethod', 'norows']
+DUMP_KINDS = ['empty', 'garbage', 'truncated', 'isdir']
+FLIST_KINDS = ['missing', 'empty', 'garbage', 'truncated', 'isdir']
+
+
+def option_variants(keywords, rng, full):
+    """keyword options of the entry point (names and defaults read off the signature by translate/c20.py): every boolean
+    keyword alone at the other value, all of them at the other value, an assignment of non-bool spellings of the same
+    truth values (1 / 0 / None / a non-empty string), random assignments; the full product in the thorough tier"""
+    bools = [k for k, d in keywords if isinstance(d, bool)]
+    dflt = dict((k, d) for k, d in keywords)
+    out = []
+    for k in bools:
+        out.append({k: not dflt[k]})
+    if len(bools) > 1:
+        out.append(dict((k, not dflt[k]) for k in bools))
+    if bools:
+        out.append(dict((k, rng.choice([1, 'yes']) if not dflt[k] else rng.choice([0, None])) for k in bools))
+        out.append(dict((k, rng.choice([0, None, False])) for k in bools))
+    if full and 0 < len(bools) <= 7:
+        for combo in itertools.product([False, True], repeat=len(bools)):
+            out.append(dict(zip(bools, combo)))
+    else:
+        for _ in range(2 if len(bools) > 2 else 0):
+            out.append(dict((k, rng.random() < 0.5) for k in bools))
+    seen = []
+    for o in out:
+        if o not in seen:
+            seen.append(o)
+    return seen
+
+
+def spread(n, count):
+    """about `count` call indices spread over range(n), always with the first and the last"""
+    if n <= 0:
         return []
-    nb = max(1, min(C.NPROC, len(runs)))
-    outs = C.run_impl_parallel('c20_impl.py', [{'target': target, 'workdir': workdir, 'vars': names, 'inlined': inlined, 'runs': runs[i::nb]}
-                                                for i in range(nb)])
+    if n <= count:
+        return list(range(n))
+    return sorted(set([0, n - 1] + [(i * (n - 1)) // (count - 1) for i in range(count)]))
+
+
+def run_batches(target, workdir, names, inlined, runs, fresh_runs=()):
+    """runs: spread over NPROC worker processes; fresh_runs: each in its own interpreter that imports only the entry
+    point's module -- all in one pool.  Returns the results of `runs` (and of fresh_runs, when given)."""
+    nb = max(1, min(C.NPROC, len(runs))) if runs else 0
+    payloads = [{'target': target, 'workdir': workdir, 'vars': names, 'inlined': inlined, 'runs': runs[i::nb]} for i in range(nb)]
+    payloads += [{'target': target, 'workdir': workdir, 'vars': names, 'inlined': inlined, 'fresh': True, 'runs': [r]} for r in fresh_runs]
+    outs = C.run_impl_parallel('c20_impl.py', payloads) if payloads else []
     res = [None] * len(runs)
-    for i, o in enumerate(outs):
+    for i, o in enumerate(outs[:nb]):
         for k, r in enumerate(o['results']):
             res[i + k * nb] = r
+    if fresh_runs != ():
+        return res, [o['results'][0] for o in outs[nb:]]
     return res
 
 
@@ -160,6 +212,56 @@ def correspond(ctx, proof_ok=True):
             st = dict(xst, **dict((v, 'orig-value') for v in names))
             for va in deep:
                 base.append({'init': st, 'fault': None, 'args': va, 'family': 'read-states'})
+        mx = ((_meta.get('<info>') or {}).get('matrix') or {}).get(target) or {}
+        free = [v for v in names if v not in DIR_VALUED]
+        set_all = dict(base_extra, **dict((v, 'orig-value') for v in names))
+        unset_free = dict(set_all, **dict((v, None) for v in free))
+        # family options: the keyword options of the signature, in the states all set / all unset / each one alone unset
+        opt_states = [set_all, unset_free] + [dict(set_all, **{v: None}) for v in free if len(free) > 1]
+        opts = option_variants(mx.get('keywords') or [], ctx.rng, ctx.thorough)
+        if target == 'template_input' and not ctx.thorough:
+            # a complete run costs seconds here: all unset, and one of the other states drawn per run of the check;
+            # the all-falsy assignment (same truth values as the defaults) is left to the thorough tier
+            opt_states = [unset_free, ctx.rng.choice([x for x in opt_states if x != unset_free])]
+            opts = [o for o in opts if any(o.values())]
+        stub = {} if target == 'template_input' else {'stub_score': True}
+        for st in opt_states:
+            for kw in opts:
+                base.append({'init': st, 'fault': None, 'args': dict(stub, kwargs=kw), 'family': 'options'})
+        # family value-variety: initial values of the touched variables of different lengths and contents (compared as
+        # exact strings = byte for byte): both at the same value, each alone, random mixtures
+        vstates = []
+        for lab in VALUE_LABELS:
+            vstates.append(dict(set_all, **dict((v, lab) for v in free)))
+        pool = VALUE_LABELS + [None, 'orig-value']
+        for lab in (VALUE_LABELS if ctx.thorough else ctx.rng.sample(VALUE_LABELS, 4)):
+            for v in free:
+                vstates.append(dict(set_all, **dict((w, lab if w == v else ctx.rng.choice(pool)) for w in free)))
+        vdone = []
+        vlater = []       # template_input: no fault-free run of its own (the call sequence does not depend on the values)
+        for st in vstates:
+            if st in vdone:
+                continue
+            vdone.append(st)
+            if target == 'template_input' and not ctx.thorough and len(vdone) > 3:
+                vlater.append(st)
+            else:
+                base.append({'init': st, 'fault': None, 'args': dict(variants[0]), 'family': 'value-variety'})
+        # family natural-failures: files that are missing, unreadable or malformed (no injected fault)
+        if target == 'template_input':
+            nat = [{'parfile': k} for k in PAR_KINDS] + [{'dumpfile': k} for k in DUMP_KINDS]
+            nat_kw = [{}, {'verbose': True}]
+        else:
+            nat = [{'flist_state': k, 'stub_score': False} for k in FLIST_KINDS] + [{'flist_state': k, 'stub_score': True, 'rescore': True} for k in FLIST_KINDS[:3]]
+            nat_kw = [{}]
+        for st in (set_all, unset_free) if target == 'template_input' else (set_all,):
+            for a in nat:
+                for kw in (nat_kw if st is not set_all or target != 'template_input' or ctx.thorough else nat_kw[:1]):
+                    base.append({'init': st, 'fault': None, 'args': dict(a, kwargs=kw), 'family': 'natural-failures'})
+        if ONLY:
+            # development aid (C20_ONLY=family,family): only these families (the very first run still makes the input files)
+            base = base[:1] + [b for b in base[1:] if b['family'] in ONLY]
+            vlater = vlater if 'value-variety' in ONLY else []
         # phase 1: fault-free runs (the first one alone: it creates the input files)
         t0 = time.time()
         first = C.run_impl('c20_impl.py', {'target': target, 'workdir': workdir, 'vars': names, 'inlined': inlined, 'runs': base[:1]})
@@ -176,10 +278,34 @@ def correspond(ctx, proof_ok=True):
         t0 = time.time()
         # phase 2: every fault point of every (state, variant)
         fault_runs = []
+        n_ref = 0
+        hclasses = [c for c in (mx.get('handler_classes') or []) if c != 'InjectedFault']
         for b, r in zip(base, res0):
             all_runs.append((target, names, b, r))
             n = r['ncalls']
             both_set = all(b['init'].get(v) == 'orig-value' for v in names)
+            if b['family'] == 'touched-states' and b['args'] == variants[0] and b['init'] == set_all:
+                n_ref = n
+            if b['family'] == 'natural-failures' or (ONLY and b['family'] not in ONLY and b['family'] != 'touched-states'):
+                continue
+            if b['family'] in ('options', 'value-variety'):
+                cnt = (n if ctx.thorough else 6) if target != 'template_input' else (24 if ctx.thorough else 3)
+                # template_input, quick tier: a complete run costs seconds, so three interior points (before / after the export, late)
+                for k in (spread(n, cnt) if target != 'template_input' or ctx.thorough else sorted(set([n // 12, n // 2, (5 * n) // 6]))):
+                    if k < n:
+                        fault_runs.append(dict(b, fault=k))
+                continue
+            if b['family'] == 'touched-states' and b['args'] == variants[0] and (both_set or b['init'] == unset_free) \
+                    and (not ONLY or 'handler-faults' in ONLY):
+                # family handler-faults: the injected exception has a class that a handler of the entry point (or of an
+                # inlined helper) names, so that the handler path is taken
+                if b['init'] == set_all:
+                    n_ref = n
+                for c in hclasses:
+                    for k in spread(n, n if target != 'template_input' else (40 if ctx.thorough else 4)):
+                        fault_runs.append(dict(b, fault=k, fault_class=c, family='handler-faults'))
+            if ONLY and b['family'] not in ONLY:
+                continue
             if ctx.thorough:
                 stride = 1
             elif target != 'template_input':
@@ -191,9 +317,63 @@ def correspond(ctx, proof_ok=True):
                 stride = 2 if both_set else 13
             for k in range(0, n, stride):
                 fault_runs.append(dict(b, fault=k))
-        for b, r in zip(fault_runs, run_batches(target, workdir, names, inlined, fault_runs)):
+        for st in vlater:
+            # a fault before the export, one after it (early, so that the run is short)
+            for k in sorted(set([min(2, max(n_ref - 1, 0)), n_ref // 4])) if n_ref else []:
+                fault_runs.append({'init': st, 'fault': k, 'args': dict(variants[0]), 'family': 'value-variety'})
+        # family fresh-interpreter: the first call in a process that has imported only the entry point's module; the
+        # variables that module bodies of (lazily) imported pydl modules read or write, unset and set; a minimal environment
+        ivars = [v for v in (mx.get('import_time_vars') or []) if v not in names]
+        module = mx.get('module') or ('pydl.pydlspec2d.spec1d' if target == 'template_input' else 'pydl.photoop.window')
+        fstates = [dict(set_all, **dict((v, None) for v in ivars)), dict(unset_free, **dict((v, None) for v in ivars))]
+        if ivars:
+            fstates.append(dict(set_all, **dict((v, '@dir') for v in ivars)))
+            if ctx.thorough:
+                for v in ivars:
+                    fstates.append(dict(set_all, **dict((w, '@dir' if w == v else None) for w in ivars)))
+        if target == 'template_input':
+            fvars = [{}, {'nodump': True}, {'kwargs': {'verbose': True}}, {'parfile': 'missing'}]
+        elif target == 'window_score':
+            fvars = [{'stub_score': False}, {'stub_score': True, 'rescore': True}]
+        else:
+            fvars = [{'stub_score': False}, {'stub_score': True}]
+        fresh = []
+        for i, st in enumerate(fstates):
+            for va in (fvars if i != 1 or ctx.thorough else fvars[1:2]):
+                fresh.append({'init': st, 'fault': None, 'args': va, 'family': 'fresh-interpreter', 'module': module})
+        for va in (fvars[:2] if ctx.thorough else fvars[1:2]):
+            fresh.append({'init': fstates[0], 'fault': None, 'args': va, 'family': 'fresh-interpreter', 'module': module, 'minimal_env': True,
+                          'keep': sorted(fstates[0])})
+        n0 = dict((str(b['args']), r['ncalls']) for b, r in zip(base, res0) if b['init'] == set_all)
+        for va in fvars[:2]:
+            n = n0.get(str(dict(va))) or n0.get(str(dict(variants[0]))) or 0
+            for k in (range(0, n, 8) if ctx.thorough else ctx.rng.sample(range(n), min(n, 1))):
+                fresh.append({'init': fstates[0], 'fault': k, 'args': va, 'family': 'fresh-interpreter', 'module': module})
+        if ONLY and 'fresh-interpreter' not in ONLY:
+            fresh = []
+        res1, fres = run_batches(target, workdir, names, inlined, fault_runs, fresh)
+        second = []
+        seen_sites = set()
+        for b, r in zip(fault_runs, res1):
+            all_runs.append((target, names, b, r))
+            # family double-fault: calls made by handlers and finally blocks after the first fault fail in turn
+            na = r.get('ncalls_after') or 0
+            if r.get('fired_at') and na:
+                sites = r.get('after_names') or []
+                for j in range(na if ctx.thorough else min(na, 3)):
+                    site = (b.get('fault_class'), sites[j] if j < len(sites) else j, any(e[0] != 'get' for e in r['trace']))
+                    if ctx.thorough or site not in seen_sites:
+                        # quick tier: one second fault per distinct call site, class of the first fault, and whether the
+                        # environment had been written by then
+                        seen_sites.add(site)
+                        second.append(dict(b, fault2=j, family='double-fault'))
+        if not ctx.thorough and len(second) > 160:
+            second = ctx.rng.sample(second, 160)
+        for b, r in zip(second, run_batches(target, workdir, names, inlined, second)):
             all_runs.append((target, names, b, r))
         timing[target + ':faults'] = round(time.time() - t0, 1)
+        for b, r in zip(fresh, fres):
+            all_runs.append((target, names, b, r))
     # Coq: does the generated skeleton accept each observed trace; restoration verdicts
     t0 = time.time()
     terms = []
@@ -227,6 +407,14 @@ def correspond(ctx, proof_ok=True):
                 '(sdss_score on synthetic fpFieldStat/psField files; template_input without a dump file). '
                 'The full process environment is compared before/after, every write to os.environ (os.putenv, os.unsetenv) by a frame that is not the entry point or an inlined helper is logged, '
                 'and the observed os.environ operations must be a trace of the generated skeleton (Coq: accepts) whose presence flags are consistent with the initial state (Coq: consistent). '
+                'Family options: the keyword options of each entry point (names and defaults read off the signature by translate/c20.py): every boolean keyword alone at the other value, all of them, '
+                'non-bool spellings (1 / 0 / None / a string), in the states all set / all unset / one unset, with faults spread over the call sequence. '
+                'Family value-variety: initial values of the touched variables of length 0, 1, 16, 17, 64, 4096, non-ASCII, non-UTF-8 bytes, with = / blanks / a newline, compared as exact strings. '
+                'Family handler-faults: the injected exception has a class named by a handler of the entry point or an inlined helper (read off the source), so the handler path runs. '
+                'Family double-fault: after a first fault, each call made by a handler / finally block fails in turn. '
+                'Family natural-failures: missing, empty, truncated, binary, directory-in-place-of parameter / dump / window_flist files and parameter files lacking or mis-spelling keywords before and after the export. '
+                'Family fresh-interpreter: the first call in a new interpreter that imported only the module of the entry point (sys.modules recorded before the call; modules imported during the call listed), '
+                'with the variables that module bodies of reachable pydl modules read or write (derived from the call graph) unset and set, and in a minimal environment; the environment is also compared across the import. '
                 'non-trivial = a run with an injected fault; distinct by (entry point, state, variant, k)',
         'runs_by_kind': dist,
         'seconds': timing,
@@ -235,6 +423,16 @@ def correspond(ctx, proof_ok=True):
                        'reachable_units': dict((t, (_meta.get(t) or {}).get('reachable_units')) for t in TARGETS),
                        'inlined': dict((t, (_meta.get(t) or {}).get('inlined')) for t in TARGETS)},
         'faults_fired': fired,
+        'second_faults_fired': sum(1 for _, _, run, r in all_runs if run.get('fault2') is not None and r.get('fired2_at')),
+        'calls_after_first_fault': sorted(set(n for _, _, run, r in all_runs for n in (r.get('after_names') or [])))[:20],
+        'run_matrix': dict((t, dict((k, v) for k, v in (((_meta.get('<info>') or {}).get('matrix') or {}).get(t) or {}).items() if k != 'eager_modules'))
+                           for t in TARGETS),
+        'fresh_interpreter': dict((t, {'runs': sum(1 for tt, _, run, _ in all_runs if tt == t and run['family'] == 'fresh-interpreter'),
+                                       'pydl_modules_before_call': max([len(r.get('pydl_modules_before_call') or []) for tt, _, run, r in all_runs
+                                                                        if tt == t and run['family'] == 'fresh-interpreter'] or [0]),
+                                       'imported_by_call': sorted(set(m for tt, _, run, r in all_runs if tt == t for m in (r.get('pydl_modules_imported_by_call') or [])))})
+                                  for t in TARGETS),
+        'initial_values': VALUE_LABELS,
         'not_restored': sum(1 for v in verdicts if v & 2),
         'trace_not_accepted': sum(1 for v in verdicts if v & 1),
         'foreign_writes': sum(1 for _, _, _, r in all_runs if r.get('foreign_writes')),
@@ -251,13 +449,30 @@ def correspond(ctx, proof_ok=True):
             if sig in seen:
                 continue
             seen.add(sig)
-            where = 'call #%s (%s) fails' % (run['fault'], r['fired_at']) if run['fault'] is not None else \
-                'it %s (%s) from the initial state %s' % (r['outcome'], (r['exc'] or 'no exception')[:60],
-                                                         dict((k, x) for k, x in run['init'].items() if k not in names or x != 'orig-value'))
+            how = []
+            if run['args'].get('kwargs'):
+                how.append('options %s' % run['args']['kwargs'])
+            oth = dict((k, x) for k, x in run['args'].items() if k not in ('kwargs',) and x not in (False, None))
+            if oth:
+                how.append('variant %s' % oth)
+            if run.get('family') == 'fresh-interpreter':
+                how.append('first call in a fresh interpreter that imported only %s%s (pydl modules imported during the call: %s)' % (
+                    run.get('module'), ', minimal environment' if run.get('minimal_env') else '',
+                    ', '.join((r.get('pydl_modules_imported_by_call') or [])[:6]) or 'none'))
+            state = dict((k, x) for k, x in run['init'].items() if x not in ('orig-value', '@dir'))
+            if run['fault'] is not None:
+                where = 'call #%s (%s) fails%s%s' % (run['fault'], r['fired_at'], ' with %s' % run['fault_class'] if run.get('fault_class') else '',
+                                                    ' and then call #%s after it (%s) fails too' % (run['fault2'], r.get('fired2_at')) if run.get('fault2') is not None else '')
+                where += ' (it %s: %s), initial state %s' % (r['outcome'], (r['exc'] or 'no exception')[:60], state)
+            else:
+                where = 'it %s (%s) from the initial state %s' % (r['outcome'], (r['exc'] or 'no exception')[:60], state)
+            if how:
+                where += '; ' + '; '.join(how)
+            where += '; ' + ', '.join('%s: %r -> %r' % (k, d[0], d[1]) for k, d in sorted(r['env_diff'].items()))[:300]
             ctx.violation(sig, '%s leaves %s changed when %s%s' % (target, sorted(r['env_diff']), where,
                                                                    '; written by %s' % r['foreign_writes'][0][2] if r.get('foreign_writes') else ''),
                           {'kind': 'failing-input', 'target': target, 'init': run['init'], 'fault': run['fault'], 'args': run['args'],
-                           'vars': names, 'inlined': (_meta.get(target) or {}).get('inlined') or [],
+                           'run': run, 'vars': names, 'inlined': (_meta.get(target) or {}).get('inlined') or [],
                            'observed': r, 'coq_case': term[:2000], 'verdict': v}, True)
         elif v & 1:
             sig = 'C20:%s:trace-not-in-skeleton' % target
@@ -269,7 +484,17 @@ def correspond(ctx, proof_ok=True):
             ctx.violation(sig, 'observed os.environ operations of %s are not a behaviour of the generated skeleton%s' % (
                 target, ' (written by %s)' % r['foreign_writes'][0][2] if r.get('foreign_writes') else ''),
                           {'kind': 'broken-correspondence', 'item': 'C20.Model.accepts %s_skel' % target, 'init': run['init'],
-                           'fault': run['fault'], 'args': run['args'], 'observed': r, 'coq_case': term[:2000]}, False)
+                           'fault': run['fault'], 'args': run['args'], 'run': run, 'target': target, 'vars': names,
+                           'inlined': (_meta.get(target) or {}).get('inlined') or [], 'observed': r, 'coq_case': term[:2000]}, False)
+    # process-global side effect at import: the environment differs across the import of the entry point's module
+    for target, names, run, r in all_runs:
+        if r.get('import_env_diff'):
+            sig = 'C20:import-time-environment-write:%s' % ','.join(sorted(r['import_env_diff']))
+            if sig not in seen:
+                seen.add(sig)
+                ctx.violation(sig, 'importing %s in a fresh interpreter changes the environment: %s' % (run.get('module'), r['import_env_diff']),
+                              {'kind': 'broken-correspondence', 'item': 'import of %s leaves os.environ unchanged' % run.get('module'),
+                               'target': target, 'run': run, 'vars': names, 'observed': r}, False)
     # the call-graph obligation, reported with its reason (Props.v: C20_collaborators_do_not_write fails on it)
     for u in info.get('uninlined_writers') or []:
         ctx.violation('C20:uninlined-environment-writer', 'a collaborator that may write the environment cannot be placed in the skeleton: %s' % u,
@@ -281,10 +506,16 @@ def replay(ctx, rep):
     if 'target' not in rep:
         print('replay file has no fault schedule (kind=%s item=%s)' % (rep.get('kind'), rep.get('item')))
         return 2
-    out = C.run_impl('c20_impl.py', {'target': rep['target'], 'workdir': os.path.join(ctx.work, 'replay'), 'vars': rep['vars'],
-                                     'inlined': rep.get('inlined') or [],
-                                     'runs': [{'init': rep['init'], 'fault': rep['fault'], 'args': rep['args']}]})
-    print('schedule:', rep['target'], rep['init'], 'fault at call', rep['fault'])
+    run = rep.get('run') or {'init': rep['init'], 'fault': rep['fault'], 'args': rep['args']}
+    wd = os.path.join(ctx.work, 'replay')
+    if run.get('family') == 'fresh-interpreter':
+        # the input files are made by an ordinary run first
+        C.run_impl('c20_impl.py', {'target': rep['target'], 'workdir': wd, 'vars': rep['vars'], 'inlined': rep.get('inlined') or [],
+                                   'runs': [{'init': rep['init'], 'fault': 0, 'args': {}}]})
+    out = C.run_impl('c20_impl.py', {'target': rep['target'], 'workdir': wd, 'vars': rep['vars'],
+                                     'inlined': rep.get('inlined') or [], 'fresh': run.get('family') == 'fresh-interpreter',
+                                     'runs': [run]})
+    print('schedule:', rep['target'], run)
     print('now     :', out['results'][0])
     print('before  :', rep.get('observed'))
     return 0
